@@ -458,3 +458,5 @@ def run(ctx):
     rule_R8(ctx)
     rule_R9(ctx)
     rule_R10(ctx)
+    from . import _http_lists as HL
+    HL.direction_flags(ctx, ctx.program, "R4", "http1_process")
